@@ -207,6 +207,18 @@ func init() {
 			return tuple{s, iface{}}
 		},
 		"path/filepath.EvalSymlinks": func(fr *frame, a []value) value { return tuple{a[0], iface{}} },
+		"verif/symx.Shared": func(fr *frame, a []value) value {
+			// Shared(ptr, name): accesses to *ptr become visible operations (schedule points) and are
+			// checked for happens-before races
+			if fr.i.sched != nil && fr.i.sched.enabled {
+				if itf, ok := a[0].(iface); ok {
+					if p, ok := itf.v.(*value); ok && p != nil {
+						fr.i.sched.shared[p] = goStr(a[1])
+					}
+				}
+			}
+			return nil
+		},
 		"verif/symx.MapOrder": func(fr *frame, a []value) value {
 			fr.i.mapOrderSym = a[0].(bool)
 			return nil
